@@ -47,6 +47,9 @@ func HarnessReconciliationDecision() {
 		tasks = append(tasks, t)
 	case 2:
 		owned, _ = ftTask("x", env, vrt.Bool("critical"))
+		if vrt.Bool("owned.task.still.launching") { // in the roster and locked by its role, not yet reported running
+			owned.status = INACTIVE
+		}
 		tasks = append(tasks, owned)
 	}
 	other, _ := ftTask("other", env, true) // an unrelated owned task
